@@ -36,12 +36,18 @@ CONSTANTS
     MaxTxn,        \* transactions 1..MaxTxn, committed one after the other
     MaxRot,        \* bound on memtable rotations
     MaxCompact,    \* bound on compactions
-    Variant        \* "orig" | "repo"
+    Variant,       \* "orig" | "repo"
+    MaxCrash,      \* bound on process crashes followed by a recovery (sessions)
+    RecCap,        \* transactions a memtable holds while the log is replayed (a segment with more is split)
+    RecoverVariant \* "orig": parts of a split segment are flushed with log_number = segment + 1 while the last part stays
+                   \*         in memory, and the writer reopens on the old log number (pinned commit)
+                   \* "repo": the last part is flushed too when it shares its segment with a flushed part, and the
+                   \*         writer reopens on the manifest's log number as it is after recovery
 
 Txn == 1..MaxTxn
 Entries(t) == {<<t, 1>>, <<t, 2>>}
 Segs == 0..MaxRot
-TableIds == 1..(MaxRot + MaxCompact + 1)
+TableIds == 1..(MaxRot + MaxCompact + 1 + MaxCrash * MaxTxn)
 
 VARIABLES
     next,       \* the transaction being committed (MaxTxn + 1 = done)
@@ -60,8 +66,11 @@ VARIABLES
     kin,        \* inputs of the running compaction
     ncompact,
     acked,      \* acknowledged transactions
-    ackedSync   \* ... that must survive a power loss
-vars == <<next, cph, csync, loggedIn, wal, active, mem, imm, tab, man, nextTab, fph, kph, kin, ncompact, acked, ackedSync>>
+    ackedSync,  \* ... that must survive a power loss
+    down,       \* the process has crashed and has not been restarted yet
+    ncrash
+ovars == <<next, cph, csync, loggedIn, wal, active, mem, imm, tab, man, nextTab, fph, kph, kin, ncompact, acked, ackedSync>>
+vars == <<ovars, down, ncrash>>
 
 NoTab == [ents |-> {}, synced |-> FALSE, exists |-> FALSE]
 
@@ -76,6 +85,7 @@ Init ==
     /\ nextTab = 1
     /\ fph = "idle" /\ kph = "idle" /\ kin = {} /\ ncompact = 0
     /\ acked = {} /\ ackedSync = {}
+    /\ down = FALSE /\ ncrash = 0
 
 WalAppend(s, t, sync) ==
     [wal EXCEPT ![s] = [recs |-> Append(wal[s].recs, t),
@@ -189,10 +199,58 @@ CompactDelete ==
     /\ kph' = "idle" /\ kin' = {}
     /\ UNCHANGED <<next, cph, csync, loggedIn, wal, active, mem, imm, man, nextTab, fph, ncompact, acked, ackedSync>>
 
-Next ==
+-----------------------------------------------------------------------------
+(* sessions: a process crash (the files stay as they are, everything in memory is gone) and the next start-up      *)
+(* (src/lsm.rs Core::new: orphan clean-up, replay_wal_with_repair, reopening the commit-log writer)                 *)
+Crash ==
+    /\ ~down /\ ncrash < MaxCrash
+    /\ down' = TRUE /\ ncrash' = ncrash + 1
+    /\ mem' = [ents |-> {}, seg |-> active] /\ imm' = <<>>
+    /\ next' = IF cph = "idle" THEN next ELSE next + 1        \* a commit in flight is abandoned (its record may survive)
+    /\ cph' = "idle" /\ fph' = "idle" /\ kph' = "idle" /\ kin' = {}
+    /\ UNCHANGED <<csync, loggedIn, wal, active, tab, man, nextTab, ncompact, acked, ackedSync>>
+
+Max2(a, b) == IF a > b THEN a ELSE b
+RECURSIVE ChunkSeq(_, _, _)
+\* the records of segment s from position i on, cut into memtables of RecCap transactions
+ChunkSeq(s, i, acc) ==
+    IF i > Len(wal[s].recs) THEN acc
+    ELSE LET j == IF i + RecCap - 1 > Len(wal[s].recs) THEN Len(wal[s].recs) ELSE i + RecCap - 1
+             part == [ents |-> UNION {Entries(wal[s].recs[x]) : x \in i..j}, seg |-> s]
+         IN ChunkSeq(s, j + 1, Append(acc, part))
+RECURSIVE PartsFrom(_, _)
+PartsFrom(s, acc) ==
+    IF s > MaxRot THEN acc
+    ELSE PartsFrom(s + 1, IF wal[s].exists /\ s >= man.log THEN ChunkSeq(s, 1, acc) ELSE acc)
+
+Recover ==
+    /\ down
+    /\ LET parts == PartsFrom(0, <<>>)
+           n == Len(parts)
+           lastShares == n > 1 /\ parts[n - 1].seg = parts[n].seg
+           nflush == IF n = 0 THEN 0 ELSE IF RecoverVariant = "repo" /\ lastShares THEN n ELSE n - 1
+           newLog == IF nflush = 0 THEN man.log ELSE Max2(man.log, parts[nflush].seg + 1)
+           highest == CHOOSE s \in Segs : wal[s].exists /\ \A x \in Segs : wal[x].exists => x <= s
+           act == Max2(IF RecoverVariant = "repo" THEN newLog ELSE man.log, highest)
+       IN /\ act \in Segs /\ nextTab + nflush - 1 \in TableIds \cup {0}
+          /\ tab' = [i \in TableIds |->
+                        IF i >= nextTab /\ i < nextTab + nflush
+                        THEN [ents |-> parts[i - nextTab + 1].ents, synced |-> TRUE, exists |-> TRUE]
+                        ELSE IF i \in man.tables THEN tab[i] ELSE NoTab]          \* orphans are removed
+          /\ man' = [tables |-> man.tables \cup {i \in TableIds : i >= nextTab /\ i < nextTab + nflush}, log |-> newLog]
+          /\ nextTab' = nextTab + nflush
+          /\ mem' = [ents |-> IF n > nflush THEN parts[n].ents ELSE {}, seg |-> act]
+          /\ active' = act
+          /\ wal' = [wal EXCEPT ![act] = [@ EXCEPT !.exists = TRUE]]
+    /\ down' = FALSE
+    /\ UNCHANGED <<next, cph, csync, loggedIn, imm, fph, kph, kin, ncompact, acked, ackedSync, ncrash>>
+
+Running ==
     \/ Log(TRUE) \/ Log(FALSE) \/ ApplyFit \/ Rotate \/ Relog \/ Ack \/ FlushWalSync
     \/ FlushWrite \/ FlushSync \/ FlushSwitch \/ WalCleanup
     \/ CompactWrite \/ CompactSync \/ CompactSwitch \/ CompactDelete
+
+Next == (~down /\ Running /\ UNCHANGED <<down, ncrash>>) \/ Crash \/ Recover
 
 Spec == Init /\ [][Next]_vars
 
